@@ -421,8 +421,11 @@ func (s *socket) OpenContext() (protocol.Context, error) {
 		return nil, protocol.ErrClosed
 	}
 	c := &context{
-		s:      s,
-		closeQ: make(chan struct{}),
+		s:          s,
+		closeQ:     make(chan struct{}),
+		bestEffort: s.master.bestEffort,
+		recvExpire: s.master.recvExpire,
+		sendExpire: s.master.sendExpire,
 	}
 	s.contexts[c] = struct{}{}
 	return c, nil
